@@ -199,7 +199,10 @@ end Src
 
 /-! ## Interval: `interval(d)` [`.take(c)`] subscribed at time 0, optionally unsubscribed by another thread at `u`
 
-thread 0 = scheduler worker, thread 1 = the thread that calls `Subscription::unsubscribe` at time `u`. -/
+thread 0 = scheduler worker, thread 1 = the thread that calls `Subscription::unsubscribe` at time `u`.
+A tick that is delivered AND completes the downstream `take` is two micro-steps of thread 0 (`sink_next(x)`, then
+`upstream_abort_observe; sink_complete; finalize`, take.rs:44-50) with `half = true` in between, so thread 1 can
+unsubscribe between them: the item is then delivered and `complete` is not. -/
 namespace Interval
 
 structure Params where
@@ -214,6 +217,9 @@ structure State where
   /-- the unsubscribing thread has done its call (or does not exist) -/
   udone : Bool := false
   log : List Out := []
+  /-- the `take` lambda has delivered the item of its completing tick (`sink_next`) and has not yet run
+      `upstream_abort_observe; sink_complete; finalize` (take.rs:46-50) -/
+  half : Bool := false
 deriving DecidableEq, Repr, Inhabited
 
 def init (p : Params) : State := { udone := p.unsubAt.isNone }
@@ -236,10 +242,21 @@ def step (p : Params) (s : State) : Label → Option State
   | .run 0 =>
       match s.w.pc with
       | .emit =>
-          some { s with
-            w := s.w.emitted s.now (completes p s.w)
-            log := s.log ++ (if delivers p s.w then [(s.now, Ev.next (.int s.w.n))] else [])
-                         ++ (if completes p s.w then [(s.now, Ev.complete)] else []) }
+          if s.half then
+            -- second half of a completing tick: `upstream_abort_observe` (unsubscribes the worker's observer), `sink_complete`
+            -- (delivered iff the subscriber is still subscribed), `finalize`
+            some { s with
+              half := false
+              w := s.w.emitted s.now true
+              log := s.log ++ (if s.w.sub then [(s.now, Ev.complete)] else []) }
+          else if delivers p s.w = true ∧ completes p s.w = true then
+            -- first half: `sink_next(x)`; the worker stays inside `s.next(n)`
+            some { s with half := true, log := s.log ++ [(s.now, Ev.next (.int s.w.n))] }
+          else
+            some { s with
+              w := s.w.emitted s.now (completes p s.w)
+              log := s.log ++ (if delivers p s.w then [(s.now, Ev.next (.int s.w.n))] else [])
+                           ++ (if completes p s.w then [(s.now, Ev.complete)] else []) }
       | _ => match s.w.localStep p.d s.now with
              | some w' => some { s with w := w' }
              | none => none
